@@ -31,19 +31,16 @@ def refL : List ConvTree → String → String → Val → Trace → Out
   | c :: cs, i, f, v, tr => bindO (ref c i f v tr) (refL cs i f)
 end
 
-/-- instance and field of the use site -/
-def siteInst (c : Case) : String := if c.mode = .standalone then c.inst else selfText
-def siteField (c : Case) : String := if c.mode = .standalone then c.field else fieldText c.fname
-
-def isInit (m : Mode) : Bool := m = .init || m = .initDefault
-
-/-- one use: the background field's converter runs before / after in `__init__` (fields in definition order,
-    nothing after a failure) -/
-def refStep (c : Case) (v : Val) (tr : Trace) : Out :=
-  let tr1 := if isInit c.mode && c.bg = .before then tr ++ [bgEvent] else tr
-  match ref c.tree (siteInst c) (siteField c) v tr1 with
-  | (.ok r, tr2) => (.ok r, if isInit c.mode && c.bg = .after then tr2 ++ [bgEvent] else tr2)
-  | (.exc e, tr2) => (.exc e, tr2)
+/-- one input: standalone the converter sees the tokens it is handed; in a class every field that uses the
+    converter — also when several fields share the one converter object — is converted with the instance and with
+    ITS OWN field, in definition order (`__init__` stops at the first exception; assignments are independent) -/
+def refStep (c : Case) (v : Val) (tr : Trace) : List String × Trace :=
+  match c.mode with
+  | .standalone =>
+    let r := ref c.tree c.inst c.field v tr
+    ([r.1.render], r.2)
+  | .init | .initDefault => initRun (fun name v tr => ref c.tree selfText (fieldText name) v tr) c.flds v tr
+  | .assign | .setter => assignFields (fun name v tr => ref c.tree selfText (fieldText name) v tr) c.flds v tr
 
 def expected (c : Case) : Obs :=
   let r := runInputs (refStep c) c.inputs []
